@@ -25,7 +25,7 @@ ASSUMPTIONS = [
 CORE_ALLOWED = (
     "kwargs_param", "multiline_summary", "float_default", "negative_int", "zero_int", "bool_false", "none_default",
     "prose_trailing_stop", "required_bool", "no_params", "str_with_space", "code_default", "int_under_nonscalar_type",
-    "default_words", "prose_punct",
+    "default_words", "prose_punct", "optional_prose",
 )
 # shapes of open findings: excluded from the core by construction, each probed by its own frontier budget
 FRONTIER_KNOBS = irprops.frontier_knobs((
